@@ -19,7 +19,7 @@ type Entry struct {
 	// ustar prefix+name split at the last '/', "pax" = PAX 'x' record path=,
 	// "gnu" = GNU 'L' long-name entry.
 	Route string `json:"route,omitempty"`
-	// Type: reg dir symrel symdd symabs symfile hard char fifo xglob
+	// Type: reg dir symrel symdd symabs symfile hard char fifo xglob rega cont sparse unk
 	Type string `json:"type"`
 	// Size is the declared size; Actual the number of content bytes really
 	// present (Actual < Size truncates the stream right there). -1 = same as Size.
@@ -66,6 +66,15 @@ func typeflag(t string) byte {
 		return '6'
 	case "xglob":
 		return 'g'
+	// payload-carrying flags other than '0': archive/tar hands their data to the caller like a regular file's
+	case "rega":
+		return 0 // the old NUL type flag (TypeRegA)
+	case "cont":
+		return '7' // contiguous file
+	case "sparse":
+		return 'S' // old GNU sparse format, one data fragment covering the whole file
+	case "unk":
+		return 'Z' // a letter no standard assigns
 	}
 	panic("type " + t)
 }
@@ -87,6 +96,9 @@ func linkTarget(t, outsideAbs string) string {
 	}
 	return ""
 }
+
+// payloadFlag: type flags whose entries carry file data in the stream.
+func payloadFlag(f byte) bool { return f == '0' || f == 0 || f == '7' || f == 'S' || f == 'Z' }
 
 func octal(b []byte, v int64) {
 	s := fmt.Sprintf("%0*o", len(b)-1, v)
@@ -121,6 +133,16 @@ func rawHeader(name, prefix string, flag byte, size int64, b256 bool, link strin
 	copy(h[257:263], "ustar\x00")
 	copy(h[263:265], "00")
 	copy(h[345:500], prefix)
+	if flag == 'S' && !b256 && size >= 0 {
+		// old GNU sparse header: GNU magic, one fragment (offset 0, length size), real size = size
+		copy(h[257:265], "ustar  \x00")
+		for i := 345; i < 500; i++ {
+			h[i] = 0
+		}
+		octal(h[386:398], 0)
+		octal(h[398:410], size)
+		octal(h[483:495], size)
+	}
 	for i := 148; i < 156; i++ {
 		h[i] = ' '
 	}
@@ -238,7 +260,7 @@ func buildTar(entries []Entry, outsideAbs string, endMarker bool) ([]byte, []spa
 			add(pad512(data), ei, len(data))
 			continue
 		}
-		if flag != '0' {
+		if !payloadFlag(flag) {
 			// link / dir / device entries carry no data in the stream whatever the size field says
 			continue
 		}
